@@ -13,6 +13,7 @@ from . import util as U
 
 HERE = os.path.dirname(os.path.abspath(__file__))
 EPS32 = 1.1920929e-07
+COEF_TOL = 1e-4   # unchanged code: ≤ ~1e-5 (nodes at distance ≥ r·sin(π/M) from 0, see C19_node_norm_lower)
 
 
 def run_child(mode, seed, names):
@@ -65,6 +66,21 @@ def probe_sessions(seed, names):
     for key, r in f64["coefs"].items():
         if not r["finite"] or any(dt not in ("float64", "complex128") for dt in r["dtypes"]):
             bad.append(f"x64 session ETDRK {key}: finite={r['finite']} dtypes={r['dtypes']}")
+    worst = 0.0
+    for order in (1, 2, 3, 4):
+        for k, v64 in f64["sweep"][f"order{order}"].items():
+            v32 = f32["sweep"][f"order{order}"][k]
+            for zi, (x64, x32) in enumerate(zip(v64, v32)):
+                c64, c32 = complex(*x64), complex(*x32)
+                if not (np.isfinite(c64.real) and np.isfinite(c32.real)):
+                    bad.append(f"coefficient sweep ETDRK{order}{k} at z={f64['sweep']['z'][zi]}: non-finite ({c32} / {c64})")
+                    continue
+                d = abs(c32 - c64) / max(1.0, abs(c64))
+                worst = max(worst, d)
+                if d > COEF_TOL:
+                    bad.append(f"coefficient sweep ETDRK{order}{k} at z={f64['sweep']['z'][zi]}: single {c32} vs double {c64} "
+                               f"differ by {d:.2e} (> {COEF_TOL:g}): the contour passes too close to the removable singularity")
+                # the double-precision value against the exact phi-combination is the C02 check's business
     for name in names:
         a, b = f32["steppers"][name], f64["steppers"][name]
         if a["out_dtype"] != "float32" or b["out_dtype"] != "float64":
@@ -85,7 +101,7 @@ def probe_sessions(seed, names):
         polyconst = name in ("GeneralPolynomialStepper", "NormalizedPolynomialStepper", "DifficultyPolynomialStepper", "GrayScott")
         if unforced and not polyconst and b["zero_max"] != 0.0:
             bad.append(f"{name}: the zero state is mapped to a non-zero state (max {b['zero_max']:.3e})")
-    return {"ok": not bad, "bad": bad}
+    return {"ok": not bad, "bad": bad, "worst_coefficient_deviation": worst}
 
 
 def oracle(ctx, deep):
